@@ -61,6 +61,7 @@ type config struct {
 	Auth               string // ok | denied | error   (authentication outcome for the entry point used)
 	Blocked            []string
 	BlockError         bool
+	BlockErrorTrue     bool // Blocked answers (true, error): the boolean is to be ignored when an error is returned
 	Filter             string // all | none | first
 }
 
@@ -625,7 +626,7 @@ func (f fedImpl) Blocked(c context.Context, iris []*url.URL) (bool, error) {
 		return answer{Kind: "bool", B: false}
 	})
 	if x.Kind == "err" {
-		return false, errInjected
+		return f.cfg.BlockErrorTrue, errInjected
 	}
 	return x.B, nil
 }
